@@ -11,6 +11,7 @@ mod fuzz_calc;
 mod lex;
 mod sym;
 mod term;
+mod threads;
 mod tracker;
 mod util;
 mod valdiff;
@@ -34,6 +35,7 @@ fn main() {
         "vars" => vars::main(rest),
         "valgrid" => valgrid::main(rest),
         "calc" => calc::main(rest),
+        "threads" => threads::main(rest),
         "floatgrid" => floatgrid::main(rest),
         "valdiff" => valdiff::main(rest),
         "fuzz-calc" => fuzz_calc::main(rest),
